@@ -638,9 +638,9 @@ func pipeBadVers(f []string) vlib.Res {
 
 func pipeDenial(f []string, alias bool) vlib.Res {
 	p := pipe
-	c, qid, cd := parseClient(f[0]), vlib.Atoi(f[1]), f[2] == "t"
-	copts, chas := parseOpts(f[3])
-	k := vlib.Atoi(f[4])
+	c, proto, qid, cd := parseClient(f[0]), f[1], vlib.Atoi(f[2]), f[3] == "t"
+	copts, chas := parseOpts(f[4])
+	k := vlib.Atoi(f[5])
 	st := p.st
 	cuts0, proofs0 := cache.VerifC19DenialLens(p.ca)
 	nx0 := st.nxCalls
@@ -651,7 +651,7 @@ func pipeDenial(f []string, alias bool) vlib.Res {
 	} else {
 		req = reqWith(fmt.Sprintf("q%d.d.%s", qid, zoneOfK(k)), dns.TypeA, cd, copts, chas, 0, true)
 	}
-	reply := p.run(c, "udp", req)
+	reply := p.run(c, proto, req)
 	reached := st.nxCalls > nx0
 	cuts1, proofs1 := cache.VerifC19DenialLens(p.ca)
 	var ropts []dns.EDNS0
@@ -689,7 +689,11 @@ func pipeDenial(f []string, alias bool) vlib.Res {
 	if alias {
 		name = "tgt"
 	}
-	return vlib.Res{Impl: fmt.Sprintf("%s=%s cuts=%d", name, vlib.B(reached), cuts1), Oracle: or, Tags: "nt"}
+	tags := "nt"
+	if p.wireUsed {
+		tags = "nt,wire-born"
+	}
+	return vlib.Res{Impl: fmt.Sprintf("%s=%s cuts=%d", name, vlib.B(reached), cuts1), Oracle: or, Tags: tags}
 }
 
 // ------------------------------------------------------------------ exec
@@ -887,6 +891,33 @@ func exec(op string) vlib.Res {
 		q := dns.Question{Name: fmt.Sprintf("q%d.c19.test.", vlib.Atoi(a[0])), Qtype: dns.TypeA, Qclass: dns.ClassINET}
 		ok := cache.VerifC19Forge(pipe.ca, q, a[1] == "t", pfx(a[2]), pfx(a[3]))
 		return vlib.Res{Impl: map[bool]string{true: "ok", false: "none"}[ok], Tags: "nt,forged-collision"}
+	case "pipe sget":
+		// pipe sget <qid> <cd> <optecs> <markecs> <treebypass> <k>: the resolver-private
+		// look-up path Store.GetWithContext for a fresh name below the denied d.z<k>
+		cd, optEcs, mark, byp, k := a[1] == "t", a[2] == "t", a[3] == "t", a[4] == "t", vlib.Atoi(a[5])
+		store, ok := pipe.ca.Store().(*cache.Store)
+		if !ok {
+			return vlib.Res{Impl: "nostore", Oracle: fail("sget/no-store", "")}
+		}
+		ctx := context.Background()
+		if mark {
+			ctx = middleware.MarkClientECS(ctx)
+		}
+		if byp {
+			ctx = cache.VerifC19WithBypass(ctx)
+		}
+		var opts []optT
+		if optEcs {
+			opts = []optT{parseOpt("E1.24.0.0a010200")}
+		}
+		req := reqWith(fmt.Sprintf("q%s.d.%s", a[0], zoneOfK(k)), dns.TypeA, cd, opts, true, 0, true)
+		msg, got := store.GetWithContext(ctx, req)
+		hit := got && msg != nil
+		or := "ok"
+		if hit && (cd || optEcs || mark || byp) {
+			or = fail("denial/store-get/ecs-or-cd-tree-consumed-shared-denial", "cd=%v optecs=%v mark=%v bypass=%v", cd, optEcs, mark, byp)
+		}
+		return vlib.Res{Impl: "hit=" + vlib.B(hit), Oracle: or, Tags: "nt"}
 	case "pipe badvers":
 		return pipeBadVers(a)
 	case "pipe nx":
